@@ -13,11 +13,16 @@ IMPORTS = "From GfaV Require Import Base.Py Model.Codec Model.Line Model.Doc Cor
 LEVEL_TEXT = ("Theorems in coq/Props/C01.v: the written spelling of an integer reads back to the same value and writing it again "
               "gives the same text (canonical spelling is idempotent); joining fields with a separator and splitting again "
               "returns the fields (for any fields free of the separator); the record grouping of the writer is idempotent and "
-              "keeps every record exactly once. The line and document writer (Model/Line.v, Model/Doc.v: class dispatch, tag "
+              "keeps every record exactly once. One line (Proofs/LineRoundTripP.v, for every text, level and version): if the "
+              "constructor accepts the text as a line of a standard record type, the written line is the text field by field - "
+              "same record type, same number and order of fields, every tag with its name and datatype - each value replaced by "
+              "its canonical spelling; if the values are canonical already the written line IS the text and reading it back gives "
+              "the same line (parse(write(parse T)) = parse T per line); a comment is written as read. The line and document writer (Model/Line.v, Model/Doc.v: class dispatch, tag "
               "peeling of custom records, header merge and split, complement-link merge, nested fragment/custom dictionaries) "
               "is a hand model compared inside Coq with str(Gfa(T)) on generated documents, including the model's own fixed "
-              "point. Partial: parse(write(l)) = l for whole lines is not proved for all datatypes (it needs grammar "
-              "membership of every canonical spelling); the oracle decides the full statement on the implementation: every "
+              "point. Partial: that the canonical spelling of every datatype is accepted again and is itself canonical is proved "
+              "for integers only (floats and JSON are Python's, through the oracle record), custom records are compared, not "
+              "proved; the oracle decides the full statement on the implementation: every "
               "input record reappears with identical positional fields and the same tag set, nothing is added, dropped or "
               "flagged, writing is a fixed point, for string/list/file entry points, LF/CRLF, levels 0..3. Floats and JSON are "
               "Python's spelling (oracle).")
